@@ -211,6 +211,11 @@ pp_twprge_ocr_scrub = re.compile(
 # of Twp/Rge's in the preprocessor.)
 pm_regex = re.compile(
     r"""
+    # The designation must stand on its own: it may neither begin nor
+    # end inside a word (otherwise the 'pm' in 'development',
+    # 'equipment', 'topmost' etc. is taken for 'P.M.').
+    (?<![A-Za-z])
+    
     # Abbreviated 'P.M.'
     ((P\.?\s{0,10}M\.?)
     
@@ -220,6 +225,8 @@ pm_regex = re.compile(
     # Spelled out (allowing for some misspelling).
     (P{1,2}r{1,2}i{0,2}n{0,2}c{0,2}i{0,2}p{0,2}a{0,2}l{0,2}\s
     {0,10}M{1,2}e{0,2}r{0,2}i{0,2}d{0,2}i{0,2}a{0,2}n{0,2}))
+    
+    (?![A-Za-z])
     """, re.IGNORECASE | re.VERBOSE)
 
 
